@@ -1316,6 +1316,7 @@ func (f *VFSFile) runHydration(infos []*ltx.FileInfo) {
 	f.mu.Lock()
 	currentTXID := f.pos.TXID
 	f.mu.Unlock()
+	verifVFSPhase(f, "hydration_position")
 
 	if hydrationTXID > 0 && currentTXID >= hydrationTXID {
 		f.logger.Debug("resuming hydration from persistent file", "txid", hydrationTXID.String())
@@ -1346,6 +1347,7 @@ func (f *VFSFile) runHydration(infos []*ltx.FileInfo) {
 		}
 	}
 
+	verifVFSPhase(f, "hydration_before_complete")
 	f.hydrator.SetComplete()
 
 	// Clear cache since we'll now read from hydration file
